@@ -414,6 +414,10 @@ func (vr *variableResolver) resolve(ctx *ExecutionContext) (*Value, error) {
 		// into the execution context (e.g. in a for-loop)
 		if current.Type() == typeOfValuePtr {
 			tmpValue := current.Interface().(*Value)
+			if tmpValue == nil {
+				// a nil *Value is nothing
+				return AsValue(nil), nil
+			}
 			current = tmpValue.val
 			isSafe = tmpValue.safe
 		}
@@ -534,8 +538,13 @@ func (vr *variableResolver) resolve(ctx *ExecutionContext) (*Value, error) {
 				current = reflect.ValueOf(rv.Interface())
 			} else {
 				// Return the function call value
-				current = rv.Interface().(*Value).val
-				isSafe = rv.Interface().(*Value).safe
+				rvValue := rv.Interface().(*Value)
+				if rvValue == nil {
+					// a nil *Value is nothing
+					return AsValue(nil), nil
+				}
+				current = rvValue.val
+				isSafe = rvValue.safe
 			}
 		}
 
